@@ -448,8 +448,8 @@ func (fi *FuncInfo) mustCrossOrPassLocal(target ssa.Instruction, pass func(Atom)
 			if isGate[e] {
 				continue
 			}
-			if s.n.From >= 0 && sb.Succs[0] != sb.Succs[len(sb.Succs)-1] {
-				if a, ok := fi.EdgeAtomFrom(e, s.n.From); ok && pass(a) && (edgeOK == nil || edgeOK(e)) {
+			if (s.n.From >= 0 || s.n.Sel != "") && sb.Succs[0] != sb.Succs[len(sb.Succs)-1] {
+				if a, ok := fi.EdgeAtomN(e, s.n); ok && pass(a) && (edgeOK == nil || edgeOK(e)) {
 					continue
 				}
 			}
@@ -459,7 +459,7 @@ func (fi *FuncInfo) mustCrossOrPassLocal(target ssa.Instruction, pass func(Atom)
 			}
 			seen[next] = true
 			via := ""
-			if a, ok := fi.EdgeAtomFrom(e, s.n.From); ok {
+			if a, ok := fi.EdgeAtomN(e, s.n); ok {
 				via = "[" + a.String() + "]"
 			}
 			q = append(q, &st{n: next, prev: s, via: via})
@@ -903,7 +903,7 @@ func (fi *FuncInfo) AlwaysFollowedFrom(b0 *ssa.BasicBlock, idx int, hit func(ssa
 				continue
 			}
 			via := ""
-			if a, ok := fi.EdgeAtomFrom(Edge{b, si}, it.p.n.From); ok {
+			if a, ok := fi.EdgeAtomN(Edge{b, si}, it.p.n); ok {
 				via = "[" + a.String() + "]"
 				if edgeHit != nil && edgeHit(a) {
 					continue
@@ -1095,7 +1095,7 @@ func (fi *FuncInfo) LoopBodyMustCrossOrPass(header *ssa.BasicBlock, pass func(At
 				continue
 			}
 			via := ""
-			if a, ok := fi.EdgeAtomFrom(Edge{sb, i}, s.n.From); ok {
+			if a, ok := fi.EdgeAtomN(Edge{sb, i}, s.n); ok {
 				via = "[" + a.String() + "]"
 				if pass(a) && sb.Succs[0] != sb.Succs[1] {
 					gates++
@@ -1231,7 +1231,7 @@ func (fi *FuncInfo) MustPassFeasible(target ssa.Instruction, instrPass func(ssa.
 			}
 			np := pins
 			path := it.path
-			if a, ok := fi.EdgeAtomFrom(Edge{itb, si}, it.n.From); ok {
+			if a, ok := fi.EdgeAtomN(Edge{itb, si}, it.n); ok {
 				if contradicts(pins, a) {
 					continue
 				}
@@ -1372,7 +1372,7 @@ func (fi *FuncInfo) LoopBodyMustPass(header *ssa.BasicBlock, hit func(ssa.Instru
 				continue
 			}
 			via := ""
-			if a, ok := fi.EdgeAtomFrom(Edge{sb, i}, s.n.From); ok {
+			if a, ok := fi.EdgeAtomN(Edge{sb, i}, s.n); ok {
 				via = "[" + a.String() + "]"
 			}
 			if seen[next] && next.B != header {
@@ -1463,7 +1463,7 @@ func (fi *FuncInfo) MustCrossOrPassInLoop(header *ssa.BasicBlock, target ssa.Ins
 				continue // the next iteration
 			}
 			via := ""
-			if a, ok := fi.EdgeAtomFrom(Edge{sb, i}, s.n.From); ok {
+			if a, ok := fi.EdgeAtomN(Edge{sb, i}, s.n); ok {
 				via = "[" + a.String() + "]"
 				if pass(a) {
 					continue
